@@ -55,6 +55,11 @@ CLAIMED = {
          "No counterexample (other than the listed known finding) among generated scripts over 2-4 hosts in v4 and v6: every datagram received by a socket belonged to a send whose target set contains that socket (host + bound port for unicast with wildcard vs localhost binds and the connected-peer filter; hosts with the port bound for broadcast and only with the option enabled; members at send time for multicast), carried the sender's payload unaltered and cut only to the receive buffer, reported the expected source address, and was the first receipt of that send on that socket; on healthy links and within the receive capacity every targeted socket received exactly one copy, through recv_from, try_recv_from and readable paths.",
          "fail_rate 0; exactly-one only asserted for sockets alive during the whole delivery window with stable connect state and never addressed by more datagrams than udp_capacity; unspecified corners (own-host multicast loop, loopback-bound sockets sending off-host) are May; known finding F-C09-1 (multicast datagram in flight reaches a later socket on the member's port) is excluded in the main search and asserted by its replay.",
          "DESIGN.md §6 C09"),
+ "C04": ("fault_enumeration",
+         "fault enumeration: Sim::crash injected after every step of 12 (24 thorough) small workloads x several downtimes, plus property-based random workloads and crash/bounce schedules, checked with task drop-guards, the H1 socket-table hook, the trace, peer-side observation tables and a crash-free twin run",
+         "For every workload a crash was injected after every step of the run and followed by a bounce after each listed downtime (plus bounce-without-crash, repeated cycles, two victims selected by regex, and random schedules): when Sim::crash returned no task of the victim was alive and its UDP, TCP listener, TCP stream and multicast tables were empty; while down its code made no progress and it sent nothing; peers blocked on established streams or with a connection request queued at the victim were unblocked with EOF / ConnectionReset / ConnectionRefused within latency + 3 steps; connects and datagrams arriving during the downtime never reached the new incarnation; each bounce ran the software factory exactly once and the new incarnation re-bound its fixed ports and accepted again; hosts not talking to the victim behaved exactly as in a crash-free twin run.",
+         "Fixed latency >= 1 ms, fail_rate 0 and fixed host order (needed for the twin comparison); victims' main futures never return; events arriving in the very first step of a new incarnation are not asserted; known finding F-C04-2 (peer writer parked on flow control when only a FIN is sent) is excluded in the main search and asserted by its replay.",
+         "DESIGN.md §6 C04"),
 }
 
 PENDING_REASON = "check not built yet in this round (planned, see DESIGN.md §6); not claimed until its check exists and has been shown silent on the unchanged tree"
